@@ -24,6 +24,10 @@ var otherEncKey = []byte("otherenc-otherenc-otherenc-32byt")
 var userSignKey = []byte("USERSIGNKEYUSERSIGNKEYUSERSIGN32")
 var otherSignKey = []byte("othersig-othersig-othersig-32byt")
 
+// a configured signing key that is shorter than the 32 bytes HS256 needs: the gateway is still in
+// signed mode (minting fails, encrypt-only tokens are refused)
+var shortSignKey = []byte("SHORTSIGNKEYSHORTSIGNKEY")
+
 type uclaims struct {
 	Iss string `json:"iss,omitempty"`
 	Sub string `json:"sub,omitempty"`
@@ -44,6 +48,9 @@ func setUserKeys(ek, sk string) {
 	}
 	if sk == "S" {
 		security.UserSigningKey = userSignKey
+	}
+	if sk == "T" {
+		security.UserSigningKey = shortSignKey
 	}
 }
 
@@ -86,6 +93,12 @@ func emitUserTok(env *runEnv, ek, sk, term, tok string) {
 		disclosed := "0"
 		if rec.Code != 200 && (strings.Contains(body, `"sub"`) || strings.Contains(body, `"iss"`)) {
 			disclosed = "1"
+		}
+		// a refusal must not name the token's subject either (the harness knows it from the term it built)
+		if f := strings.Split(term, ":"); rec.Code != 200 && len(f) > 3 {
+			if subj := string(unhx(f[len(f)-1])); len(subj) >= 3 && strings.Contains(body, subj) {
+				disclosed = "1"
+			}
 		}
 		sub := ""
 		if rec.Code == 200 {
@@ -147,7 +160,7 @@ func streamC15(env *runEnv) {
 	now := time.Now().Unix()
 	i64 := func(v int64) *int64 { return &v }
 	names := []string{"alice", "bob@example.com", "üñï¢ødé", strings.Repeat("longname", 12), "a"}
-	modes := [][2]string{{"E", "S"}, {"E", "-"}, {"-", "S"}, {"-", "-"}}
+	modes := [][2]string{{"E", "S"}, {"E", "-"}, {"-", "S"}, {"-", "-"}, {"E", "T"}}
 
 	kname := func(k []byte) string {
 		switch string(k) {
